@@ -469,7 +469,7 @@ def check_memsan(prop, tier, seed, work, t0):
     ]
     clean = 0
     for binname, hprop, args, tag in vgruns:
-        r = vfw.run_shards(work, bins[binname], hprop, tier, seed, NCPU, args, tag=tag, wrapper=vg, expect_exit=(0, 97), timeout=to,
+        r = vfw.run_shards(work, bins[binname], hprop, tier, seed, NCPU, args, tag=tag, wrapper=vg, expect_exit=(0, 97), timeout=3600 if th else 600,
                            env={"OMP_NUM_THREADS": "2"})
         clean += sum(1 for c in r.counters if c.startswith("family:") or c.startswith("cfg:")) > 0
         for i in range(NCPU):
